@@ -60,7 +60,7 @@ func genPlan(r *rand.Rand, discarded *int) Plan {
 	for i := 0; i <= n; i++ {
 		pad := 0
 		if r.Intn(3) == 0 {
-			pad = 120 + r.Intn(200) // pushes the encoding past the decoder's 4 KiB read-ahead
+			pad = 80 + r.Intn(60) // pushes the encoding past the decoder's 4 KiB read-ahead
 		}
 		p.Pad = append(p.Pad, pad)
 		p.Plain = append(p.Plain, pad == 0 && r.Intn(3) == 0)
